@@ -423,6 +423,11 @@ pub struct SegBody<B> {
     inner: B,
     on: bool,
 }
+impl<B> SegBody<B> {
+    pub fn new(inner: B, on: bool) -> Self {
+        SegBody { inner, on }
+    }
+}
 impl<B> http_body::Body for SegBody<B>
 where
     B: http_body::Body<Data = Bytes> + Unpin,
